@@ -285,6 +285,27 @@ func (x *Exec) vxIntrinsic(fn *ssa.Function, short string, args []Value, g *Term
 		x.nondet[nm] = 1
 		x.store(p, x.freshSymArr(nm, sa.Elem, sa.Len), g)
 		return nil
+	case "vxHavocBacking":
+		// vxHavocBacking(name string, s []T): replaces the whole backing array of s by an uninterpreted array
+		nm := x.knownStr(args[0], short)
+		sl, ok := args[1].(*IfaceV).V.(*SliceV)
+		if !ok || sl.Base == nil {
+			x.fail("vxHavocBacking: need a non-nil slice")
+		}
+		et := args[1].(*IfaceV).T.Underlying().(*types.Slice).Elem()
+		old := x.force(x.load(sl.Base))
+		var n int
+		switch ov := old.(type) {
+		case *BigConstV:
+			n = len(ov.Data)
+		case *ArrayV:
+			n = len(ov.E)
+		default:
+			x.fail("vxHavocBacking: unsupported backing %T", old)
+		}
+		x.nondet[nm] = 1
+		x.storeRaw(sl.Base, x.freshSymArr(nm, et, c.Const(64, uint64(n))))
+		return nil
 	case "vxGhostSet":
 		x.ghost[x.knownStr(args[0], short)] = args[1]
 		return nil
